@@ -398,6 +398,7 @@ func generate(c *hx.Ctx, caseNo, i int) {
 	for len(r.ivq) > 0 || len(r.poolq) > 0 {
 		g.events(true, true)
 	}
+	r.last = true
 	r.do(Op{K: "propose"})
 	r.finish("generated:" + profile)
 }
